@@ -21,6 +21,7 @@ def c03(tier, rep):
                          "noisy documents (distinct by source text, non-trivial = more than one line)")
     E.menu(rep, M.BASE, 3 if tier == "quick" else 4, invariants=["Inv_C03"], label="base")
     E.grow(rep, M.STRUCT, [([], 6 if tier == "quick" else 7), (PFX_TWO_RULES, 2)], invariants=["Inv_C03"], label="struct")
+    E.grow(rep, M.DOCSTRING, [([1, 2, 3, 4], 2 if tier == "quick" else 3), ([1, 2, 3, 5], 2)], invariants=["Inv_C03"], label="docstring", no_free_text=False)
     E.reuse_pass(rep, E.src_corpus() + E.src_limits() + E.src_generated(60, SEED), "reuse")
     E.traces(rep, E.record_all(std_sources(tier, 300, 3000)), "corpus+gen+noisy")
 
@@ -68,6 +69,7 @@ def c12(tier, rep):
     E.menu(rep, [M.TABLES[i] for i in (0, 1, 2, 3, 4, 5, 7, 12, 14)], 3 if tier == "quick" else 4, max_errs=3, invariants=["Inv_C12"], label="ragged-examples", prefix=[1, 2, 3, 4])
     _rows(rep, 5 if tier == "quick" else 6, (124, 92, 110, 116, 32), (32,), "letter_t", ("count", "text", "col", "ast", "exception"))
     _rows(rep, 4 if tier == "quick" else 5, (124, 92, 8203, 65279, 32), (32,), "invisible", ("count", "text", "col", "ast", "exception"))
+    _rows(rep, 5 if tier == "quick" else 6, (124, 101, 769, 32, 3635), (32,), "combining", ("count", "text", "col", "ast", "exception"))
     E.traces(rep, E.record_all(std_sources(tier, 300, 3000)), "corpus+gen+noisy")
 
 
@@ -78,6 +80,7 @@ def c04(tier, rep):
     _rows(rep, 5 if tier == "quick" else 7, (124, 92, 110, 9, 128512), (9, 32), "tab_nonbmp", ("col", "ast", "count"))
     _tags(rep, 6 if tier == "quick" else 7, (64, 32, 35, 120, 9), (32,), "ascii")
     _tags(rep, 5 if tier == "quick" else 6, (64, 12288, 35, 128512), (9, 9), "wide")
+    _rows(rep, 5 if tier == "quick" else 6, (124, 101, 769, 32, 3635), (32,), "combining", ("col", "ast", "count"))
     E.menu(rep, M.BASE, 3 if tier == "quick" else 4, invariants=["Inv_C04"], label="base")
     E.traces(rep, E.record_all(std_sources(tier, 300, 3000)), "corpus+gen+noisy")
 
@@ -239,7 +242,7 @@ def c05(tier, rep):
         rep.violation({"kind": "spec-invariant", "invariant": inv}, {"engine": "MC_Keywords", "what": f"{inv} violated", "tlc_tail": res.out[-3000:]})
     # every keyword as a document through the real parser
     cases = K.all_cases(1 if tier == "quick" else 4) + K.foreign_cases(SEED, 300 if tier == "quick" else 3000) + K.header_cases(SEED, 400 if tier == "quick" else None)
-    cases += K.star_cases() + K.english_cases()
+    cases += K.star_cases() + K.english_cases() + E.src_limits()
     E.traces(rep, E.record_all(cases, listing=True), "keywords+foreign+headers+star", batch=2500)
     # the same documents through ONE re-used matcher: the dialect in force is the configured default unless the document says otherwise
     import sessions as S
@@ -268,6 +271,9 @@ PFX_TAGGED = [10, 1, 10, 2, 10, 4, 6, 10, 5, 8, 9]  # tags at feature, rule, sce
 PFX_OUTLINE = [1, 3, 6, 4, 6, 7, 5, 8]              # Feature, Background, Given; Scenario, Given, And; Examples, header
 PFX_RULE_BG = [1, 2, 3, 6, 4, 6]                    # Feature, Rule, Background, Given; Scenario, Given
 PFX_TABLELESS = [1, 4, 6, 10, 5]                    # Feature, Scenario, Given; tags, Examples (no table yet)
+PFX_TAGS_AFTER_TABLE = [1, 4, 6, 8, 10, 5]          # Feature, Scenario, Given, | a |; tags, Examples
+PFX_CELLLESS = [1, 4, 6, 12, 12, 5, 12]            # Feature, Scenario, Given, |, |; Examples, | (a header without cells)
+PFX_TAG_PLACEHOLDER = [13, 1, 13, 4, 6, 13, 5, 8]  # @x<a> tags on Feature, Scenario and Examples; header | a |
 PFX_BG_ARG = [1, 3, 6, 11, 4, 6, 5, 8]              # Feature, Background, Given <a> x, | <a> |; Scenario, Given <a> x; Examples, | a |
 MIXED_CASE_DIALECTS = ["cy-GB", "en-Scouse", "mk-Cyrl", "mk-Latn", "sr-Cyrl", "sr-Latn", "zh-CN", "zh-TW", "fr", "em", "ht", "en-old"]
 
@@ -278,7 +284,8 @@ def _compile_family(tier, rep, inv):
                          "four levels; outline with background); distinct documents, non-trivial = at least one pickle; plus corpus/generated traces")
     q = tier == "quick"
     E.grow(rep, M.STRUCT, [([], 6 if q else 8), (PFX_TWO_RULES, 3 if q else 4), (PFX_TAGGED, 2 if q else 3), (PFX_OUTLINE, 2 if q else 4),
-                           (PFX_RULE_BG, 2 if q else 3), (PFX_TABLELESS, 3 if q else 4), (PFX_BG_ARG, 2 if q else 3)],
+                           (PFX_RULE_BG, 2 if q else 3), (PFX_TABLELESS, 3 if q else 4), (PFX_BG_ARG, 2 if q else 3),
+                           (PFX_TAGS_AFTER_TABLE, 2), (PFX_CELLLESS, 2), (PFX_TAG_PLACEHOLDER, 2)],
            invariants=[inv], label="struct")
     E.traces(rep, E.record_all(std_sources(tier, 300, 3000) + E.src_generated(60 if q else 1000, SEED + 1, MIXED_CASE_DIALECTS)), "corpus+gen+noisy+dialects")
     E.compiler_reuse_pass(rep, std_sources(tier, 150, 1500))
@@ -374,6 +381,24 @@ def c17(tier, rep):
             if cli != json.loads(json.dumps(direct)):
                 rep.violation({"kind": "cli"}, {"engine": "cli", "what": "scripts/generate_events.py output differs from GherkinEvents.enum", "flags": flags,
                                                 "first": next(((a, b) for a, b in zip(cli, direct) if a != b), (len(cli), len(direct)))})
+        # every line the tool prints is one JSON envelope -- for every option combination, also when a source yields nothing
+        import subprocess, sys as _sys
+        from common import PYROOT
+        empty = os.path.join(d, "empty.feature")
+        md = os.path.join(d, "notes.feature.md")
+        open(empty, "w").write("Feature: nothing\n")
+        open(md, "w").write("Feature: md\n  Scenario: s\n")
+        for flags in ([], ["--no-source", "--no-ast"], ["--no-source", "--no-ast", "--no-pickles"], ["--no-pickles"]):
+            pr = subprocess.run([_sys.executable, os.path.join(PYROOT, "scripts", "generate_events.py"), *flags, empty, files[2][0], md], capture_output=True, text=True,
+                                env=dict(os.environ, PYTHONPATH=PYROOT, PYTHONDONTWRITEBYTECODE="1"), timeout=60)
+            rep.case(("cli-lines", tuple(flags)))
+            lines = pr.stdout.split("\n")[:-1] if pr.stdout.endswith("\n") else pr.stdout.split("\n")
+            notjson = [l for l in lines if not l.strip().startswith("{")]
+            if notjson or (pr.stdout and not pr.stdout.endswith("\n")):
+                rep.violation({"kind": "cli-not-ndjson"}, {"engine": "cli", "what": "generate_events.py printed a line that is not a JSON envelope", "flags": flags, "lines": notjson[:3]})
+            for l in lines:
+                if l.strip().startswith("{") and "source" in json.loads(l) and json.loads(l)["source"].get("mediaType") != "text/x.cucumber.gherkin+plain":
+                    rep.violation({"kind": "cli-media-type"}, {"engine": "cli", "what": "source envelope does not carry the Gherkin media type", "envelope": l[:200]})
         # the same file given twice is two sources
         one = files[0][0]
         cli = S.cli_events([one, files[1][0], one], [])
@@ -472,6 +497,15 @@ def c09(tier, rep):
                          "through Compiler.compile (name, step text, cell, doc string content, media type, background step untouched); a sample as real text")
     headers = [["a"], ["."], ["a."], ["<a"], ["a>"], ["("], [""], ["$"], ["\\"], ["\na"], ["a\n"], ["a", "."], ["a", "<a>"], ["a", "a"], [".", "a."]]
     values = [["x"], [""], ["<a>"], ["\\"], ["\\1"], ["$"], [".a"], [">"], ["\\g<0>"], ["\n"], ["<.>", "y"], ["<a>", "<.>"], ["<<a>>", "z"], ["x", "y"], ["<a.>", "."]]
+    headers2 = [["a\n"], ["\na"], ["e\u0301"], ["\u00e9"], ["a", "a\n"]]
+    values2 = [["x"], ["<a>"], ["\n"], ["x", "y"]]
+    cases2, bad2, res2 = CL.interpolate("<>ae\n\u0301\u00e9", 4 if tier == "quick" else 5, headers2, values2, tag="interp2")
+    rep.add_tlc("MC_Interpolate[line feeds, combining marks]", res2, f"{len(cases2)} triples over an alphabet with a line feed, 'e', U+0301 and U+00E9 (placeholders spanning lines, text that differs only by normalisation)")
+    rep.traces += len(cases2)
+    for inv in sorted(set(res2.invariant_violations)):
+        rep.violation({"kind": "spec-invariant", "invariant": inv}, {"engine": "MC_Interpolate", "what": f"{inv} violated", "tlc_tail": res2.out[-3000:]})
+    for b in bad2[:50]:
+        rep.violation({"kind": "interpolate:" + b["field"]}, {"engine": "interpolate", "what": "Compiler.compile substitutes differently from the specification", **b})
     cases, bad, res = CL.interpolate("<>a.\\$", 4 if tier == "quick" else 5, headers, values)
     rep.add_tlc("MC_Interpolate", res, f"{len(cases)} (template, headers, values) triples: operational = declarative, unchanged, literal, sequential; replayed through Compiler.compile")
     rep.traces += len(cases)
@@ -557,7 +591,7 @@ def c13(tier, rep):
 
 
 def c15(tier, rep):
-    import sessions as S, json, record as R
+    import os, sessions as S, json, record as R
     rep.extra["rule"] = ("histories: every sequence of <= N documents from a pool of 12 state-perturbing documents through ONE real Parser/TokenMatcher/Compiler "
                          "sharing an id generator (two default dialects); schedules: every interleaving, at parse-loop-iteration granularity, of two (thorough: three) "
                          "concurrent parses of small documents, enforced on real parsers in threads; determinism and compile purity on every accepted document")
@@ -596,6 +630,23 @@ def c15(tier, rep):
                 rep.violation({"kind": "schedule"}, {"engine": "schedule", "what": b.get("what"), "detail": b})
         if uniq:
             rep.sample({"schedule": [x[1] for x in uniq[len(uniq) // 2]["sched"]], "documents": [sub[h[0]["d"] - 1][:30] for h in uniq[len(uniq) // 2]["hist"] if h]})
+    # determinism across processes: the same documents in interpreters with different string-hash seeds
+    import subprocess, sys as _sys
+    probe = ("import sys, json; sys.path.insert(0, sys.argv[1]); sys.path.insert(0, sys.argv[2]); import record as R, engines as E, gen\n"
+             "docs = [x for x in E.src_limits() if x[0].startswith(('empty-header', 'tag-placeholder', 'nfc'))] + E.src_generated(40, 5)\n"
+             "print(json.dumps([[R.record(n, s, d)[k] for k in ('ast', 'pickles', 'errs')] for n, s, d in docs]))")
+    from common import VERIF
+    outs = []
+    for hs in ("1", "2", "77"):
+        pr = subprocess.run([_sys.executable, "-c", probe, os.path.join(VERIF, "harness"), os.path.join(VERIF, "harness")], capture_output=True, text=True,
+                            env=dict(os.environ, PYTHONHASHSEED=hs, PYTHONDONTWRITEBYTECODE="1"), timeout=300)
+        outs.append(pr.stdout if pr.returncode == 0 else "ERR " + pr.stderr[-300:])
+    rep.case(("hash-seeds",))
+    if any(o.startswith("ERR") for o in outs):
+        from common import MachineryError
+        raise MachineryError("hash-seed probe failed: " + outs[0][:300])
+    if len(set(outs)) != 1:
+        rep.violation({"kind": "hash-seed-dependent"}, {"engine": "determinism", "what": "results differ between interpreters started with different PYTHONHASHSEED values"})
     # determinism and purity of parse / compile on real documents
     for name, s, dialect in std_sources(tier, 150, 1500):
         if R.source_is_path(s):
